@@ -71,6 +71,23 @@ var controls = []control{
 	{"map-order-dependence", []string{"C15"}, true, "rewriter/rewrite.go", "\tr.yieldFuncLits = map[*ast.FuncLit]bool{}\n", "\tr.yieldFuncLits = map[*ast.FuncLit]bool{}\n\tfor k := range r.yieldFuncDecls {\n\t\t_ = k\n\t}\n", "DET.MAPRANGE"},
 	{"tmp-not-emptied", []string{"C15", "C16"}, false, "rewriter/compile.go", "\ttmpOutputDir := mustMkEmptyDir(dir + \"_tmp\")", "\ttmpOutputDir := mustMkDir(dir + \"_tmp\")", "DET.TMP"},
 	{"header-without-negation", []string{"C16"}, true, "rewriter/compile.go", "const fileComment = `//go:build !%s", "const fileComment = `//go:build %s", "GEN.HEADER"},
+	// --- controls for the rules added after the second and third seeding rounds
+	{"for-init-dropped", []string{"C01", "C02"}, false, "rewriter/yield_rewrite.go", "\t// extract out init stmt if present\n\tif stmt.Init != nil {\n\t\t// details referring to comment in rewriteInitStmt\n\t\tassert(!isDefineStmt(stmt.Init))\n\t\tchildren = r.rewriteStmt(stmt.Init, false, children)", "\t// extract out init stmt if present\n\tif stmt.Init != nil {\n\t\t// details referring to comment in rewriteInitStmt\n\t\tassert(!isDefineStmt(stmt.Init))\n\t\tif !trivalInit {\n\t\t\tchildren = r.rewriteStmt(stmt.Init, false, children)\n\t\t}", "RW.NOLOSS"},
+	{"switch-tag-replaced", []string{"C01", "C02", "C03"}, false, "rewriter/yield_rewrite.go", "\t// not all case trival\n\tswitchStmt := X.Switch(\n\t\tnil,\n\t\tx,\n", "\t// not all case trival\n\tif as, ok := x.(*ast.AssignStmt); ok {\n\t\tx = X.Stmt(as.Rhs[0])\n\t}\n\tswitchStmt := X.Switch(\n\t\tnil,\n\t\tx,\n", "RW.TMPL.SWITCH.GUARD"},
+	{"range-bindings-split", []string{"C04"}, false, "rewriter/range.go", "\t\tbody := X.Block1(kv, n.Body.List...)\n", "\t\tbody := X.Block1(kv, n.Body.List...)\n\t\tif len(kv.Lhs) == 2 {\n\t\t\tbody = X.Block1(X.Assign(kv.Tok, kv.Lhs[0], kv.Rhs[0]), append([]ast.Stmt{X.Assign(kv.Tok, kv.Lhs[1], kv.Rhs[1])}, n.Body.List...)...)\n\t\t}\n", "RW.TMPL.RANGE.TUPLE"},
+	{"consumer-loop-edited-before-lowering", []string{"C06", "C05"}, false, "rewriter/rewrite.go", "\t\tif r.isIterator(pkg.TypeOf(n.X)) {\n\t\t\tc.Replace(r.rewriteForRange(pkg, n))", "\t\tif r.isIterator(pkg.TypeOf(n.X)) {\n\t\t\tif len(n.Body.List) == 0 {\n\t\t\t\tn.Tok = token.ASSIGN\n\t\t\t}\n\t\t\tc.Replace(r.rewriteForRange(pkg, n))", "RW.TMPL.CONSUMER"},
+	{"file-skip-on-import-spelling", []string{"C11"}, false, "rewriter/rewrite.go", "\t\tif !imports.Uses(f, coPkg.Types) {", "\t\tif !astutil.UsesImport(f.File, pkgCoPath) {", "RW.ALLFILES"},
+	{"file-dedupe-by-package-name", []string{"C15", "C13"}, false, "rewriter/rewrite.go", "\tr.m.Loader.VisitAllFiles(func(f *loader.File) {\n\t\tif !imports.Uses(f, coPkg.Types) {\n\t\t\tlog.Printf(\"skip file: %s\\n\", f.Filename)\n\t\t\treturn\n\t\t}\n", "\tseenPkg := map[string]bool{}\n\tr.m.Loader.VisitAllFiles(func(f *loader.File) {\n\t\tif !imports.Uses(f, coPkg.Types) {\n\t\t\tlog.Printf(\"skip file: %s\\n\", f.Filename)\n\t\t\treturn\n\t\t}\n\t\tif seenPkg[f.File.Name.Name] {\n\t\t\treturn\n\t\t}\n\t\tseenPkg[f.File.Name.Name] = true\n", "RW.ALLFILES"},
+	{"comments-buffer-reused", []string{"C15", "C13"}, false, "rewriter/rewrite.go", "\tr.comments = nil\n", "\tr.comments = r.comments[:0]\n", "RW.FILEPASSES"},
+	{"imports-cleaned-before-eta", []string{"C07", "C11"}, true, "rewriter/optimize.go", "\t\to.optimizeDelayCall()\n\t\t// o.optimizeBindCall()\n\t\to.etaReduction()\n\t\t// after the passes above, they may drop the last use of an import\n\t\to.optimizeImports(f)\n", "\t\to.optimizeImports(f)\n\t\to.optimizeDelayCall()\n\t\t// o.optimizeBindCall()\n\t\to.etaReduction()\n", "OPT.ORDER"},
+	{"extra-rewrite-rule", []string{"C07", "C13", "C18"}, false, "rewriter/optimize.go", "\t\to.optimizeDelayCall()\n\t\t// o.optimizeBindCall()\n", "\t\to.optimizeDelayCall()\n\t\to.optimizeBindCall()\n", "OPT.RULES"},
+	{"eta-user-iterator-method-value", []string{"C18", "C07"}, false, "rewriter/optimize.go", "\t\t\treturn ok && strings.HasPrefix(recv.Name, cstIterVar)", "\t\t\treturn ok && (strings.HasPrefix(recv.Name, cstIterVar) || recv.Name == \"it\")", "OPT.ETA"},
+	{"combine-continuation-cached", []string{"C08", "C14"}, false, "seq/seq.go", "func Combine[V any](s1, s2 Seq[V]) Seq[V] {\n\treturn func(c *co[V], k cont[V]) {\n\t\ts1(c, func(t contType, v V) {", "func Combine[V any](s1, s2 Seq[V]) Seq[V] {\n\tvar k cont[V]\n\treturn func(c *co[V], k1 cont[V]) {\n\t\tif k == nil {\n\t\t\tk = k1\n\t\t}\n\t\ts1(c, func(t contType, v V) {", "SEQ.OVERLAP"},
+	{"return-value-dropped", []string{"C08"}, false, "seq/seq.go", "// supporting generator with return value\n\treturn func(c *co[V], k cont[V]) {\n\t\tk(kReturn, v)\n", "// supporting generator with return value\n\treturn func(c *co[V], k cont[V]) {\n\t\tk(kReturn, zero[V]())\n", "SEQ.ROLE"},
+	{"bind-continues-immediately", []string{"C08", "C02"}, false, "seq/seq.go", "\t\t\tvalue: v,\n\t\t\tnext:  mkNext(f, c, k),\n\t\t}\n", "\t\t\tvalue: v,\n\t\t\tnext:  mkNext(f, c, k),\n\t\t}\n\t\tk(kNormal, zero[V]())\n", "SEQ.SUSPEND"},
+	{"start-result-not-recorded", []string{"C09", "C08"}, false, "seq/seq.go", "\t\tfunc(t contType, v V) { it.result = v },", "\t\tfunc(t contType, v V) {},", "SEQ.START"},
+	{"result-hidden-until-started", []string{"C09"}, false, "seq/seq.go", "func (d *generator[V]) Result() V {\n\treturn d.result", "func (d *generator[V]) Result() V {\n\tif d.next != nil {\n\t\treturn zero[V]()\n\t}\n\treturn d.current", "SEQ.GEN"},
+	{"string-iter-fast-path-unguarded", []string{"C10", "C04"}, false, "seq/iter.go", "\tr, w := utf8.DecodeRuneInString(s.str[s.next:])\n", "\tr, w := rune(s.str[s.next]), 1\n\tif r >= 0xC0 {\n\t\tr, w = utf8.DecodeRuneInString(s.str[s.next:])\n\t}\n", "ITER.STR"},
 	{"test-suffix-unmapped", []string{"C16"}, true, "rewriter/compile.go", "\t\t\tfilename = strings.TrimSuffix(filename, testFileSuffix) + \"_test.go\"", "\t\t\tfilename = strings.TrimSuffix(filename, testFileSuffix) + \".go\"", "GEN.NAME"},
 }
 
@@ -121,7 +138,8 @@ func runControl(c *Ctx, spec propSpec, ctl control) ControlResult {
 		}
 	}
 	for _, ob := range c2.Obls {
-		if ob.Rule == ctl.Rule && ob.Status == Violated && !baseline[ob.Key()] {
+		// an obligation of the rule that can no longer be established counts: the check fails on it
+		if ob.Rule == ctl.Rule && (ob.Status == Violated || ob.Status == Undecided) && !baseline[ob.Key()] {
 			res.Result = "fired"
 			res.Detail = ob.Construct
 			return res
